@@ -38,3 +38,13 @@ package sigagg
 //@ loop 1 invariant forallk(pk, output, exists(t, 0, $i, $ks[t] == pk))
 //@ loop 1 invariant ncalls(sub) == 0
 //@ loop 2 invariant ncalls(output.Clone) == ncalls(sub)
+
+// The verifier handed to the aggregator checks the aggregate against the validator's ROOT public key.
+//@ func NewVerifier$1
+//@ props C09
+//@ pure tblsconv.PubkeyFromCore
+//@ callreq core.VerifyEth2SignedData: a2 == eth2Cl && a3 == data.(core.Eth2SignedData) && res(1, tblsconv.PubkeyFromCore(pubkey)) == nil && a4 == res(0, tblsconv.PubkeyFromCore(pubkey))
+//@ ghost vOK bool
+//@ ghostafter core.VerifyEth2SignedData: vOK = err == nil
+//@ ensures result == nil ==> ncalls(core.VerifyEth2SignedData) == 1 && vOK
+//@ canary result != nil
